@@ -146,8 +146,6 @@ impl Receiver {
 impl RecvHandle for Receiver {
     #[tracing::instrument(skip(self), level = "debug")]
     async fn recv(&mut self) -> Result<Bytes, Error> {
-        // TODO:
-        // handle case when read ends part way through an end marker
         let mut searched = 0;
         loop {
             tracing::trace!(?self.buf, "searching for message-break marker");
@@ -158,7 +156,9 @@ impl RecvHandle for Receiver {
                 tracing::trace!(?message);
                 break Ok(message);
             }
-            searched = self.buf.len();
+            // a read may end part way through an end marker: keep the last few bytes in the
+            // search window so that a marker completed by the next read is still found
+            searched = self.buf.len().saturating_sub(MARKER.len() - 1);
             tracing::trace!("trying to read from transport");
             let len = self.read.read_buf(&mut self.buf).await?;
             tracing::trace!("read {len} bytes. buffer length is {}", self.buf.len());
